@@ -618,6 +618,16 @@ fn implicit_sq_unknown(nodes: &[N]) -> bool {
     })
 }
 
+/// a DA value with more than one component: the `Interpreted` strategy rejects it (`validate_da` has no
+/// backslash) whatever its length — a matter of date parsing, not of this property
+fn has_multi_da(ts: u8, nodes: &[N]) -> bool {
+    nodes.iter().any(|n| match n {
+        N::El { tag, vr, val } => seen_vr(ts, *tag, *vr) == VR::DA && val.contains(&b'\\'),
+        N::Sq { items, .. } => items.iter().any(|(_, e)| has_multi_da(ts, e)),
+        _ => false,
+    })
+}
+
 fn has_pixel_representation(nodes: &[N]) -> bool {
     nodes.iter().any(|n| matches!(n, N::El { tag, .. } if *tag == Tag(0x0028, 0x0103)))
 }
@@ -630,7 +640,9 @@ fn rd_case(r: &mut Rng, thorough: bool) -> String {
     let max_depth = if thorough { r.below(4) as u32 } else { r.below(3) as u32 };
     let nodes = gen_nodes(r, 0, max_depth);
     // physical padding follows the strategy, except in a few cases (misaligned on purpose)
-    let consistent = !r.chance(1, 25);
+    // (never in Implicit VR: a misaligned reader takes arbitrary bytes for tags, the dictionary answers
+    // some of them with a text VR, and a 32-bit garbage length is allocated and zeroed before it is read)
+    let consistent = !r.chance(1, if thorough { 100 } else { 25 }) || ts == 0;
     let padded = if odd == 1 { consistent } else if odd == 0 { !consistent } else { r.chance(1, 2) };
     let e = Enc { ts, odd, padded, odd_containers: odd == 1 && padded && r.chance(1, 3) };
     let mut bytes = Vec::new();
@@ -650,6 +662,7 @@ fn rd_case(r: &mut Rng, thorough: bool) -> String {
     let expect_ok = !cut
         && (odd == 2 || consistent)
         && !(ts == 0 && implicit_sq_unknown(&nodes))
+        && !(mode == 0 && has_multi_da(ts, &nodes))
         && !has_pixel_representation(&nodes);
     let flags = format!("{}{}{}", if padded { "p" } else { "u" }, if cut { "c" } else { "-" }, if e.odd_containers { "o" } else { "-" });
     let eager = run_eager(&bytes, ts, odd, mode, base);
@@ -686,7 +699,11 @@ fn main() {
     }
     for i in case_indices(&a) {
         let mut r = Rng::for_case(a.seed, i);
+        let t0 = std::time::Instant::now();
         let line = rd_case(&mut r, a.thorough);
+        if std::env::var_os("VERIF_TIMING").is_some() && t0.elapsed().as_millis() > 100 {
+            eprintln!("slow case {} {} ms: {}", i, t0.elapsed().as_millis(), &line[..line.len().min(300)]);
+        }
         out.line(&format!("#{} {}", i, line));
     }
 }
